@@ -31,7 +31,7 @@ if [ $demo_clean -eq 0 ] && [ $demo_patched -ne 0 ] && [ $suite -eq 0 ]; then
 import json,sys
 name,pid,passed=sys.argv[1:4]
 m=json.load(open('seeded/meta.json'))
-m.update({'property':pid,'confirmed_by_me':{'demo_without_patch':'pass','demo_with_patch':'fail','existing_suite_with_patch':'pass (%s tests)'%passed,
+m.update({'property':(pid if pid.startswith('C') else m.get('property')),'confirmed_by_me':{'demo_without_patch':'pass','demo_with_patch':'fail','existing_suite_with_patch':'pass (%s tests)'%passed,
   'ran':'tools/confirm_seed.sh %s in scratch worktree /tmp/wt-%s (cargo test --offline)'%(pid,pid)}})
 json.dump(m,open('/verif/seeded/%s/meta.json'%name,'w'),indent=1)
 PY
